@@ -498,8 +498,13 @@ def write_evidence(prop, tier, verif_seed, seed0, seed_end, total, n_shapes,
             "durations on a 1/8 s grid",
             "only executions a standard asyncio loop can produce (FIFO ready "
             "queue); timers never fire early",
-            "workload jobs honour cancellation; co_shutdown handlers do not "
-            "raise",
+            "workload jobs honour cancellation (possibly after a slow cleanup, "
+            "by raising or returning from the handler); co_shutdown handlers do "
+            "not raise ordinary exceptions (documented as unspecified), they may "
+            "end with a CancelledError of their own",
+            "same-instant (loop-iteration level) orderings are resolved in "
+            "favour of the library: only virtual-time differences and "
+            "sequence orders that no scheduling choice can change are judged",
             "the SimLoop and the oracles are trusted (determinism self-test, "
             "seeded mutants in /verif/seeded)"],
         "wall_s": round(wall, 2),
